@@ -19,6 +19,7 @@
 
 
 #include <QDate>
+#include <QDateTime>
 #include <QDir>
 #include <QFile>
 #include <QFileInfo>
@@ -249,28 +250,52 @@ public:
 
         QString pattern;
         if (suffix.isEmpty()) {
-            pattern = QStringLiteral("^%1\\.\\d{4}-\\d{2}-\\d{2}\\.\\d+(\\.gz)?$")
+            pattern = QStringLiteral("^%1\\.(\\d{4}-\\d{2}-\\d{2})\\.(\\d+)(\\.gz)?$")
                           .arg(QRegularExpression::escape(baseName));
         } else {
-            pattern = QStringLiteral("^%1\\.\\d{4}-\\d{2}-\\d{2}\\.\\d+\\.%2(\\.gz)?$")
+            pattern = QStringLiteral("^%1\\.(\\d{4}-\\d{2}-\\d{2})\\.(\\d+)\\.%2(\\.gz)?$")
                           .arg(QRegularExpression::escape(baseName),
                                QRegularExpression::escape(suffix));
         }
 
+        struct RotatedFile
+        {
+            QString path;
+            QDateTime modified;
+            QString date;
+            int index;
+        };
+
         auto re = QRegularExpression(pattern);
         auto dir = QDir(baseDir());
-        auto result = QStringList();
+        auto files = QList<RotatedFile>();
 
         const auto entries = dir.entryList(QDir::Files, QDir::Name);
         for (const QString &entry : entries) {
-            if (re.match(entry).hasMatch()) {
-                result.append(dir.filePath(entry));
+            const auto match = re.match(entry);
+            if (match.hasMatch()) {
+                const auto path = dir.filePath(entry);
+                files.append({ path, QFileInfo(path).lastModified(), match.captured(1),
+                               match.captured(2).toInt() });
             }
         }
 
-        std::sort(result.begin(), result.end(), [](const QString &a, const QString &b) {
-            return QFileInfo(a).lastModified() < QFileInfo(b).lastModified();
+        // Oldest first. Files rotated within the same timestamp are ordered by the
+        // rotation order their names carry (date, then numeric index).
+        std::sort(files.begin(), files.end(), [](const RotatedFile &a, const RotatedFile &b) {
+            if (a.modified != b.modified)
+                return a.modified < b.modified;
+            if (a.date != b.date)
+                return a.date < b.date;
+            if (a.index != b.index)
+                return a.index < b.index;
+            return a.path < b.path;
         });
+
+        auto result = QStringList();
+        for (const auto &file : files) {
+            result.append(file.path);
+        }
 
         return result;
     }
